@@ -13,7 +13,7 @@
      redef_of tr   the redefinition permission in force *)
 From Coq Require Import List.
 Import ListNotations.
-From MirV Require Import C13.Link C13.LinkProofs C13.LinkExamples.
+From MirV Require Import C13.Link C13.LinkProofs C13.BuildProofs C13.LinkExamples.
 
 (* For every history p, every Link step taken after it (whatever follows): the step's output is
    the next element of the trace, and if no error ended the history before, then
@@ -67,3 +67,24 @@ Theorem table_is_last_def : forall h n,
   dead (fst (run h)) = false -> assoc (env (fst (run h))) n = last_def (pubs (snd (run h))) n.
 Proof. exact table_is_last_def_proof. Qed.
 Print Assumptions table_is_last_def.
+
+(* The module-building layer (add_item), for every declaration list that builds: the module holds
+   the declared definitions once each in declaration order; a definition carries the export flag
+   exactly when the module declares `export` of its name - before or after the definition, with
+   or without forwards in between; no other item carries it.  So "a module exporting n" in the
+   theorems above means what the module's source says. *)
+Theorem build_exports_spec : forall ds m, build ds = inl m ->
+  map kn (filter (fun it => is_def (ik it)) (mitems m)) = filter is_def_decl ds /\
+  (forall it, In it (mitems m) -> is_def (ik it) = true ->
+              (iexp it = true <-> In (KExport, iname it) ds)) /\
+  (forall it, In it (mitems m) -> is_def (ik it) = false -> iexp it = false).
+Proof. exact build_exports_spec_proof. Qed.
+Print Assumptions build_exports_spec.
+
+(* The names a successful Load adds to the log, in order: the declared definitions whose name is
+   declared exported. *)
+Theorem load_publishes_declared : forall ds m id, build ds = inl m ->
+  map fst (exported id m)
+  = map snd (filter (fun d => declared_exp ds (snd d)) (filter is_def_decl ds)).
+Proof. exact load_publishes_declared_proof. Qed.
+Print Assumptions load_publishes_declared.
